@@ -20,7 +20,7 @@ import json
 from .common import Check, build_harness
 from . import typing_common as tc
 
-KINDS = {"wrong-type", "missing-arg", "extra-arg", "wrong-recv", "supertype", "subtype", "supertype-field", "subtype-field", "aug-result"}
+KINDS = {"wrong-type", "missing-arg", "extra-arg", "wrong-recv", "supertype", "subtype", "supertype-field", "subtype-field", "aug-result", "inferred-wrong"}
 THEOREMS = ["C05_check_iff", "C05_check_iff_any_tables", "C05_outside_known", "C05_known_classes", "C05_witnesses",
             "C05_accepts_nonconforming_refuted", "C05_rejects_conforming_refuted", "C05_rejects_nullable_formal",
             "C05_conforms_local", "C05_nonconforming_anywhere", "C05_local_expr", "C05_stmt_exprs", "C05_args"]
